@@ -212,7 +212,7 @@ def gen(rng, tier):
         k = rng.choice([1, 2, 2, 3, 3, 4])
         sts = pool[:k]
         extra_keys = spice_inner_names(t, rng, tips) if (not dup and rng.random() < 0.25) else None
-        bigk = rng.choice([63, 64, 65, 70, 130]) if rng.random() < 0.12 else 0
+        bigk = rng.choice([63, 64, 65, 70, 130]) if rng.random() < 0.2 else 0
         if bigk:
             # an alphabet of bigk states (extra table entries carry the states no tip has); the tips use a few
             # states, most of them of high index, so that ambiguous nodes are resolved through those
@@ -245,6 +245,8 @@ def gen(rng, tier):
                 states.append(("abs%03d" % i, st))
         rng.shuffle(states)
         algo = rng.choice(["downpass", "deltran", "acctran", "downpass", "deltran", "acctran", "none"])
+        if bigk:
+            algo = rng.choice(["deltran", "acctran", "acctran", "downpass"])
         case = {"kind": Sym("acr"), "tree": T(t), "states": [[a, b] for a, b in states], "algo": Sym(algo)}
         inner = inner_indexes(t)
         i = rng.choice(inner)
